@@ -1,6 +1,7 @@
 (** C20 — Compile once, render for any device: only the device path varies. *)
 From Coq Require Import List NArith String.
 From FP Require Import Model.Chars Model.Ast Model.Sexp Model.Compile Proofs.RenderFacts.
+From FP Require Import Spec.GuileReader Proofs.Corollaries.
 Import ListNotations.
 Local Open Scope string_scope.
 
@@ -21,6 +22,13 @@ Proof. exact program_ctx_inj. Qed.
 Theorem C20_is_scan_device : forall c p,
   option_map (@hd sexp (SList [])) (scan_call (erase (snd (render c p)))) = Some (SStr p).
 Proof. intros c p. rewrite render_snd_erase, scan_call_ctx. reflexivity. Qed.
+
+(** the same at the level of the emitted TEXT (with C04): the program reads back as a first form
+    that does not depend on the path and the fixed context filled with the string node that
+    decodes to the path given *)
+Theorem C20_text : forall e o clk c p, compile e o clk = COk c ->
+  read_all (scheme_text c p) = Some [erase (fst (render c [])); program_ctx c (SStr p)].
+Proof. exact render_text_one_place. Qed.
 
 Example C20_example :
   exists c, compile (EAction APrint) default_options [] = COk c
